@@ -1,6 +1,10 @@
 package main
 
-import "fmt"
+import (
+	"fmt"
+	"os"
+	"strconv"
+)
 
 // ---- C10: a client call only returns a response to its own transaction ----
 
@@ -197,6 +201,25 @@ func c10Scenarios(tier string) []Scenario {
 				dgs = append(dgs, DgSpec{At: 1, Kind: DgGood, ID: i})
 			}
 			add(&ClientScenario{V6: v6, T: T, Tries: 1, BufCap: -1, CloseAt: -1, Bound: 1, Calls: calls, Dgs: dgs}, "many-callers")
+			// towards the statement's upper end (8 callers): 6 concurrent callers (ids 0..4, the last one colliding with id 0),
+			// one reply per id, every schedule without preemption (all orders in which the callers and the receive loop
+			// take their turns). Measured: 5 callers 1.7e4 executions, 6 callers 6.0e5 (2 min), 7 would be ~2.5e7, 8 ~1e9:
+			// without a partial-order reduction the stateless search stops here (VERIF_C10_N8=<n> runs another size).
+			if n8 := os.Getenv("VERIF_C10_N8"); n8 != "" || thorough {
+				nc := 6
+				if n8 != "" {
+					nc, _ = strconv.Atoi(n8)
+				}
+				var calls8 []CallSpec
+				var dgs8 []DgSpec
+				for i := 0; i < nc; i++ {
+					calls8 = append(calls8, CallSpec{ID: i % (nc - 1), Match: MatchNil, CancelAt: -1, After: -1})
+				}
+				for i := 0; i < nc-1; i++ {
+					dgs8 = append(dgs8, DgSpec{At: 1, Kind: DgGood, ID: i})
+				}
+				add(&ClientScenario{V6: v6, T: T, Tries: 1, BufCap: -1, CloseAt: -1, Bound: 0, Calls: calls8, Dgs: dgs8}, "six-callers-no-preemption")
+			}
 		}
 	}
 	return out
